@@ -132,7 +132,8 @@ def corpus():
     C = lambda e: mk("clist", e, src="corpus"); N = lambda e: mk("nlist", e, src="corpus")
     return [C(b"@1!2"), C(b"@1!2!3"), C(b"@1!!2"), C(b"@1,2,3:5"), C(b"@1!12,3!4:5!6,'POTATO'"), C(b"@"), C(b"1"), C(b""), C(b"@,1"), C(b"@1,,2"), C(b"@1:2:3"),
             C(b"@1!2:3"), C(b"@9,1!2:3,4"), C(b"@1!2!3:4!5"), C(b"@1'P'"), C(b"@1,'it''s',2"), C(b"@1,"), C(b"@+"), C(b"@1!"), C(b"@-1!+2"), C(b"@9223372036854775808"),
-            C(b"@'a'x"), C(b"@1!2-3"), C(b"@4!5,1!2+3"), C(b"@1!2!3-4"), C(b"@1!2:3!4-5"), C(b"@1-2"), C(b"@'A',1"), C(b"@'A','B',2:3"), C(b"@18446744073709551617"), C(b"@9223372036854775807,-9223372036854775808"),
+            C(b"@'a' ,'b'"), C(b"@1!2,\"x\"\t"), C(b"@'a' "), C(b"@'a'\t,1"), C(b"@1, 'a'"), C(b"@ 1"), C(b"@1 "), N(b"1," + b"0" * 300 + b"42,3"), N(b"2:0." + b"0" * 299 + b"1"), N(b"0" * 256 + b"8,9"),
+            N(b"0" * 255 + b"8,9"), N(b"1:" + b"0" * 256 + b"2"), N(b"." + b"0" * 256 + b"5"), C(b"@'a'x"), C(b"@1!2-3"), C(b"@4!5,1!2+3"), C(b"@1!2!3-4"), C(b"@1!2:3!4-5"), C(b"@1-2"), C(b"@'A',1"), C(b"@'A','B',2:3"), C(b"@18446744073709551617"), C(b"@9223372036854775807,-9223372036854775808"),
             C(b"@1!170141183460469231731687303715884105728"), N(b"1,2:3V,4"), N(b"1:2 ,3"), N(b"1:2V"), C(b"@\"a\x80\""), C(b"@'abc"), C(b"@1 ,2"), C(b"@1!2!3!4"),
             N(b"1,2,3:5"), N(b"1-2"), N(b".5"), N(b"1,.5"), N(b"1,,2"), N(b",1"), N(b"1:2:3"), N(b"7,1:2:3,9"), N(b"1 2"), N(b""), N(b" 1"), N(b"1,"), N(b"1:"), N(b"2::5"),
             N(b"1:2:x"), N(b"+"), N(b"1+2"), N(b"-"), N(b"1.5.5"), N(b"1e3,-2.5E-1:+4"), N(b"1,2 ,3")]
